@@ -141,6 +141,7 @@ def gen_doc(rng, rich=True, nets=1):
             p = {"id": "p%d_%d" % (i, j), "comp": "iaf0"}
             if rng.random() < 0.5:
                 p["instances"] = rng.randrange(1, 4)
+                p["desc"] = rng.random() < 0.5
             else:
                 p["size"] = rng.randrange(1, 5)
             if rng.random() < 0.3:
@@ -166,6 +167,8 @@ def gen_ops(ck):
     d_exp = {"id": "w1", "iaf": 1, "pg": 1, "networks": [{"id": "n", "pops": [{"id": "p0", "size": 2}], "explicit_inputs": 1}]}
     d_bad = {"id": "w2", "iaf": 1, "bad_component": True, "networks": [{"id": "n", "pops": [{"id": "p0", "size": 2}]}]}
     d_syn = {"id": "w3", "iaf": 1, "syn": 1, "networks": [{"id": "n", "pops": [{"id": "p0", "size": 2}], "synaptic_connections": 1}]}
+    d_desc = {"id": "w0", "iaf": 1, "networks": [{"id": "n", "pops": [{"id": "p0", "instances": 4, "desc": True}]}]}
+    ops.append({"op": "h5_write_embed", "doc": d_desc, "faults": ck.n(8, "all")})  # instance list not in id order
     ops.append({"op": "h5_write_embed", "doc": d_exp, "faults": [], "must_raise": True})
     ops.append({"op": "h5_write_noembed", "doc": d_exp, "faults": [], "must_raise": True})
     ops.append({"op": "h5_write_embed", "doc": d_bad, "faults": [], "must_raise": True})
@@ -197,7 +200,7 @@ def gen_ops(ck):
     ops.append({"op": "am_write_doc", "doc": {"id": "a0", "am_cells": [{"id": None, "n": 3, "mid": None}]}, "faults": nf})
     # a document in the optimized representation (array backed lists with their own iteration cursor), written as XML
     d_opt = {"id": "o1", "iaf": 1, "syn": 1, "pg": 1, "embed": False,
-             "networks": [{"id": "n", "pops": [{"id": "p0", "instances": 6}, {"id": "p1", "instances": 3}],
+             "networks": [{"id": "n", "pops": [{"id": "p0", "instances": 6}, {"id": "p1", "instances": 3, "desc": True}],
                            "projs": [{"id": "pr", "pre": "p0", "post": "p1", "conns": 4}],
                            "ils": [{"id": "il", "pop": "p0", "inputs": 3}]}]}
     ops.append({"op": "xml_write_path_opt", "doc": d_opt, "faults": ck.n(30, "all")})
